@@ -189,6 +189,13 @@ func newC03World(rt *rapid.T) *c03World {
 	} else {
 		o12 = buildOutput(append(mk(1, sizeGen.Draw(rt, "n12")), o11.Tuples[0]), byte(rapid.IntRange(0, 1).Draw(rt, "v2")), rapid.SliceOfN(rapid.Byte(), 32, 32).Draw(rt, "bh3"))
 	}
+	if o12.Tree != nil && rapid.IntRange(0, 5).Draw(rt, "emptyTree") == 0 {
+		// the L2 interval of output 2 contained no withdrawal: the proposer commits an all-zero storage root (the
+		// withdrawals below are then committed by nothing, every claim against this output is invalid)
+		o12.Storage = [32]byte{}
+		o12.Root = ref.OutputRoot(o12.Version, o12.Storage[:], o12.BlockHash)
+		w.log = append(w.log, "bridge 1 output 2 commits an empty withdrawal tree (zero storage root)")
+	}
 	propose(1, o12)
 	switch st := rapid.SampledFrom([]string{"final", "final", "mixed", "notfinal", "deleted", "reproposed"}).Draw(rt, "state"); st {
 	case "final":
@@ -217,7 +224,7 @@ var c03Rich, _ = math.NewIntFromString("1180591620717411303424") // 2^70
 var c03Kinds = []string{"none", "flip-storage", "flip-blockhash", "flip-proof", "version", "seq", "amount", "amount+2^64", "bridge", "index", "swap-from-to",
 	"other-storage", "other-blockhash", "drop-last", "drop-first", "dup-item", "swap-items", "extend", "empty-proof", "cut-to-inner", "other-pos-proof",
 	"from-case", "from-nul", "move-byte", "denom", "to-other-user", "dead-output", "inner-as-root", "to-uppercase",
-	"lengthen-blockhash", "lengthen-storage", "shorten-blockhash", "lengthen-version", "extend-many", "denom-l2-twin", "hex-item", "blank-from", "blank-to", "from-tail", "to-tail", "reverse-proof", "empty-version", "from-one-letter-case"}
+	"lengthen-blockhash", "lengthen-storage", "shorten-blockhash", "lengthen-version", "extend-many", "denom-l2-twin", "hex-item", "blank-from", "blank-to", "from-tail", "to-tail", "reverse-proof", "empty-version", "from-one-letter-case", "malformed-item", "malformed-item"}
 
 // perturb applies one perturbation kind in place; returns false if it does not apply.
 func (w *c03World) perturb(rt *rapid.T, kind string, m *ophosttypes.MsgFinalizeTokenWithdrawal, o *mOutput, pos int) bool {
@@ -345,6 +352,10 @@ func (w *c03World) perturb(rt *rapid.T, kind string, m *ophosttypes.MsgFinalizeT
 			return false
 		}
 		m.From = strings.ToUpper(m.From)
+	case "malformed-item":
+		// a proof of one item that is not 32 bytes long, offered with the storage root the output really has
+		m.WithdrawalProofs = [][]byte{rapid.SliceOfN(rapid.Byte(), 0, 31).Draw(rt, "badItem")}
+		m.StorageRoot = append([]byte{}, o.Storage[:]...)
 	case "from-one-letter-case":
 		// one letter of the sender in the other case (past a 0x prefix, so that a hex sender stays a hex sender)
 		var idx []int
